@@ -1,5 +1,4 @@
 import HpackVerif.Impl.Api
-import HpackVerif.Generated.Consts
 /-! Line-protocol driver: executes the operations of the correspondence harness on the L2 model
     (`Impl`) instantiated with the `Generated` tables.  One operation per input line, one canonical
     reply line per operation.  No Mathlib in the import closure (links offline). -/
@@ -35,12 +34,6 @@ def showFail {α : Type} : Out α → String
 def showHeaders (hs : List Header) : String :=
   if hs.isEmpty then "-" else
   ",".intercalate (hs.map fun h => toHex h.name.bytes ++ ":" ++ toHex h.value.bytes ++ ":" ++ (if h.never then "N" else "P"))
-
-structure Cfg where
-  cap : Option Nat := Gen.intCap
-  own : Bool := false
-  sticky : Bool := false
-  strict : Bool := false
 
 structure W where
   cfg : Cfg := {}
